@@ -1,6 +1,6 @@
 //! C14 — field resolution never returns a value that contradicts a supplied field. Shapes P + H, subset-exhaustive.
 use chrono::format::{ParseErrorKind, Parsed};
-use chrono::{DateTime, FixedOffset, NaiveDateTime, Utc, Weekday};
+use chrono::{DateTime, FixedOffset, MappedLocalTime, NaiveDate, NaiveDateTime, Offset, TimeZone, Utc, Weekday};
 use chrono_mc::core::*;
 use chrono_mc::lattice::*;
 use chrono_mc::refcal::*;
@@ -376,6 +376,100 @@ fn resolve(acc: &mut Acc, base: (i64, u32, u32, i32), vals: &[Option<i64>; NF], 
     let _ = kind_of::<()>;
 }
 
+
+// ---- a zone with a fold, to exercise the disambiguation by the supplied offset ---------------------------
+#[derive(Clone, Copy, Debug)]
+struct FoldTz;
+#[derive(Clone, Copy, Debug, PartialEq)]
+struct FoldOff(i32);
+impl Offset for FoldOff {
+    fn fix(&self) -> FixedOffset {
+        FixedOffset::east_opt(self.0).unwrap()
+    }
+}
+const FOLD_AT: i64 = 1_441_490_400; // 2015-09-05T22:00:00Z: +01:00 before, +00:00 after => 22:00..23:00 local occurs twice
+impl TimeZone for FoldTz {
+    type Offset = FoldOff;
+    fn from_offset(_: &FoldOff) -> Self {
+        FoldTz
+    }
+    #[allow(deprecated)]
+    fn offset_from_local_date(&self, _: &NaiveDate) -> MappedLocalTime<FoldOff> {
+        MappedLocalTime::Single(FoldOff(0))
+    }
+    fn offset_from_local_datetime(&self, l: &NaiveDateTime) -> MappedLocalTime<FoldOff> {
+        let w = l.and_utc().timestamp();
+        if w < FOLD_AT {
+            MappedLocalTime::Single(FoldOff(3600))
+        } else if w < FOLD_AT + 3600 {
+            MappedLocalTime::Ambiguous(FoldOff(3600), FoldOff(0))
+        } else {
+            MappedLocalTime::Single(FoldOff(0))
+        }
+    }
+    #[allow(deprecated)]
+    fn offset_from_utc_date(&self, _: &NaiveDate) -> FoldOff {
+        FoldOff(0)
+    }
+    fn offset_from_utc_datetime(&self, u: &NaiveDateTime) -> FoldOff {
+        if u.and_utc().timestamp() < FOLD_AT {
+            FoldOff(3600)
+        } else {
+            FoldOff(0)
+        }
+    }
+}
+
+fn fold_resolution(acc: &mut Acc) {
+    // wall clocks before, inside and after the fold x supplied offset {absent, first, second, neither} x timestamp {absent, matching}
+    let z = days_from_civil(2015, 9, 5);
+    for (s, in_fold) in [(21 * 3600 + 1800u32, false), (22 * 3600u32, true), (22 * 3600 + 1800, true), (23 * 3600 - 1, true), (23 * 3600, false)] {
+        for off in [None, Some(3600i64), Some(0), Some(7200), Some(-3600)] {
+            for with_ts in [false, true] {
+                let mut p = Parsed::new();
+                let _ = p.set_year(2015);
+                let _ = p.set_month(9);
+                let _ = p.set_day(5);
+                let _ = p.set_hour((s / 3600) as i64);
+                let _ = p.set_minute((s / 60 % 60) as i64);
+                let _ = p.set_second((s % 60) as i64);
+                if let Some(o) = off {
+                    let _ = p.set_offset(o);
+                }
+                // the instants this wall clock can denote in the zone
+                let cands: Vec<i64> = if in_fold { vec![3600, 0] } else if (z * 86400 + s as i64) < FOLD_AT { vec![3600] } else { vec![0] };
+                let matching: Vec<i64> = cands.iter().cloned().filter(|c| off.map_or(true, |o| o == *c)).collect();
+                if with_ts {
+                    let Some(c) = matching.first() else { continue };
+                    let _ = p.set_timestamp(z * 86400 + s as i64 - c);
+                }
+                acc.transitions += 1;
+                let got = guard(|| p.to_datetime_with_timezone(&FoldTz));
+                let call = format!("{:?}.to_datetime_with_timezone(&<zone with a fold 22:00..23:00>)", p);
+                match got {
+                    Err(pn) => acc.violation("to_datetime_with_timezone:fold:panic", call, "Ok / Err".into(), pn),
+                    Ok(Ok(dt)) => {
+                        let o = dt.offset().0 as i64;
+                        let local_ok = ndt_parts(dt.naive_utc()) == ((z * 86400 + s as i64 - o).div_euclid(86400), (z * 86400 + s as i64 - o).rem_euclid(86400) as u32, 0);
+                        if !matching.contains(&o) || !local_ok || (matching.len() > 1 && !with_ts) {
+                            acc.violation("to_datetime_with_timezone:fold", call, format!("a result at one of the offsets {:?} (an error if more than one remains)", matching), format!("Ok at offset {} (utc {:?})", o, dt.naive_utc()));
+                        } else {
+                            acc.hit(RESOLVED);
+                        }
+                    }
+                    Ok(Err(e)) => {
+                        if matching.len() == 1 {
+                            acc.violation("to_datetime_with_timezone:fold:refuses", call, format!("Ok at offset {}", matching[0]), format!("Err({:?})", e.kind()));
+                        } else {
+                            acc.hit_nt(REFUSED);
+                        }
+                    }
+                }
+            }
+        }
+    }
+}
+
 fn alternatives(i: usize, v: i64) -> Vec<i64> {
     let mut a: Vec<i64> = match i {
         F_YEAR | F_IY => vec![v - 1, v + 1, v - 100, v + 100, 0, -1, 9999, 10000, 1969, 2070, 262142, 262143, -262143, -262144, i32::MAX as i64, i32::MIN as i64, i32::MAX as i64 + 1, (1 << 32) + v],
@@ -523,6 +617,7 @@ fn main() {
     let acc = explore_units(nunits, CLASSES.len(), only, |u, acc| {
         if u == nunits - 1 {
             setter_histories(acc);
+            fold_resolution(acc);
             acc.traces += 1;
             return;
         }
